@@ -114,3 +114,9 @@ Proof. intros Hwf Hsym Hlf Hce Hfree Hlen L. unfold can_exe in Hce. rewrite Hfre
   intros x y E. rewrite E in Hnd, Hc.
   assert (x <> y) by (inversion Hnd as [|? ? Hx _]; subst; intros ->; apply Hx; left; auto).
   split; [apply connected_pair; auto|]. apply Hsym. apply connected_pair; auto. Qed.
+
+(* the check of the placement passes / of data.connectivity is the same function *)
+Theorem placement_connected_meaning g pl :
+  wf g -> sym g -> loopfree g -> Placement.placement_connected g pl = Some true ->
+  NoDup pl /\ pl <> [] /\ (forall q, In q pl -> q < length g) /\ connected_set g pl.
+Proof. intros Hwf Hsym Hlf H. apply connected_on_meaning; auto. Qed.
